@@ -296,6 +296,20 @@ def accumulation_clause(model, rep, funcs):
             norm_src(kwarg(at[0], "order") or ast.Constant(-1)) == "order" and [norm_src(a) for a in at[0].args[:2]] == ["img", "mtx"]
         rep.ob("SLOT", f.anchor, "worker transforms the template with its matrix, zero fill, the simulator's spline order", ok, norm_src(at[0])[:100] if at else "",
                node=f.node, fn=f, clause="4 accumulation", stmt=f"def {name} transform")
+        # every fragment that is pasted went through that transform: `img` holds spline coefficients for order > 1 (spline_filter in _get_image), so a
+        # shortcut that returns img[...] itself pastes coefficients, not the template
+        MW = Matcher(f)
+        bad = []
+        for r in walk_no_nested(f.node):
+            if isinstance(r, ast.Return) and isinstance(r.value, ast.Tuple) and len(r.value.elts) == 2:
+                v = r.value.elts[1]
+                if isinstance(v, ast.Constant) and v.value is None:
+                    continue
+                ex = MW.expr(v)
+                if not any(isinstance(x, ast.Call) and (dotted(x.func) or "").endswith("affine_transform") for x in ast.walk(ex)):
+                    bad.append(f"`{norm_src(r)[:80]}` returns data that did not pass through affine_transform")
+        rep.ob("SLOT", f.anchor, "every pasted fragment is the output of the worker's affine_transform (no path returns the spline-filtered input itself)", not bad,
+               "; ".join(bad), node=f.node, fn=f, clause="4 accumulation", stmt=f"def {name} all paths transformed")
 
 
 def clipping_clause(model, rep, funcs):
@@ -315,6 +329,29 @@ def clipping_clause(model, rep, funcs):
         any(isinstance(x, ast.Return) and "None" in norm_src(x) for x in ast.walk(hs[0]))
     rep.ob("A", f.anchor, "molecules wholly outside the volume are ignored (out-of-bound error mapped to 'no fragment')", ok2, "", node=f.node, fn=f,
            clause="5 clipping", stmt="def _prep_slices out-of-bound")
+    # the handler's type really is the raised class or one of its ancestors (class hierarchy of acryo + the builtin exception tree)
+    if hs:
+        import builtins
+        try:
+            ecls = model.cls("acryo/_utils.py::SubvolumeOutOfBoundError")
+        except Exception as e:
+            rep.error(f"anchor vanished: {e}")
+            return
+        chain = []
+        for k in ecls.mro():
+            chain.append(k.name)
+            for b in k.base_exprs:
+                bn = b.split(".")[-1]
+                bt = getattr(builtins, bn, None)
+                if isinstance(bt, type):
+                    chain += [c.__name__ for c in bt.__mro__]
+        ht = norm_src(hs[0].type).split(".")[-1] if hs[0].type is not None else "BaseException"
+        names = [ht] if not isinstance(hs[0].type, ast.Tuple) else [norm_src(e).split(".")[-1] for e in hs[0].type.elts]
+        okh = any(nm in chain for nm in names)
+        rep.instance("A.clip", f.loc(hs[0]))
+        rep.ob("A", f.anchor, "the clipping handler catches the class that make_slice_and_pad raises (SubvolumeOutOfBoundError or one of its base classes)", okh,
+               "" if okh else f"`except {norm_src(hs[0].type)}` does not catch SubvolumeOutOfBoundError (bases: {' < '.join(chain[:4])}): a molecule wholly outside the "
+               "volume aborts the simulation instead of being ignored", node=hs[0], fn=f, clause="5 clipping", stmt="def _prep_slices handler type")
 
 
 def check(model, rep, tier):
